@@ -57,6 +57,17 @@ static int64_t rnd_count(void) { static const int64_t cs[] = {0, 1, 7, 8, 9, 15,
 static void leak_check(int64_t i) { if (i % 20000 == 19999) { if (__lsan_do_recoverable_leak_check()) over("leak-after-failure", "recoverable leak check fired at iteration %lld", (long long)i); } }
 
 /* ---- families ------------------------------------------------------------------------------------------------ */
+/* unknown field (id 200) holding containers nested until the buffer is full; every level is a struct, list, set or map drawn
+ * from the subset `mask` (bit0 struct, bit1 list, bit2 set, bit3 map), so lists-only, maps-only, sets-only and every mixture occur */
+static void gen_nest(uint8_t* out, size_t n, unsigned mask) {
+    static const uint8_t TY[4] = {0xC, 0x9, 0xA, 0xB}; size_t k = 0; int in_struct = 1; int cur = 0; int first = 1; if (!(mask & 15)) mask = 15;
+    while (k + 4 < n) { int t; do t = (int)vrng_below(&R, 4); while (!(mask & (1u << t)));
+        if (in_struct) { if (first) { out[k++] = TY[t]; out[k++] = 0x90; out[k++] = 0x03; first = 0; } else out[k++] = (uint8_t)(0x10 | TY[t]); cur = t; in_struct = 0; }
+        else if (cur == 0) { in_struct = 1; }
+        else if (cur == 1 || cur == 2) { out[k++] = (uint8_t)(0x10 | TY[t]); cur = t; }
+        else { out[k++] = 0x01; out[k++] = (uint8_t)(0x50 | TY[t]); out[k++] = 0x02; cur = t; } }
+    while (k < n) out[k++] = 0x00; }
+
 static void fam_thrift(int64_t iters) {
     /* seeds: metadata and page headers written by carquet itself */
     carquet_buffer_t fm; carquet_buffer_init(&fm); { parquet_file_metadata_t m; memset(&m, 0, sizeof m); parquet_schema_element_t se[3]; memset(se, 0, sizeof se); se[0].name = "schema"; se[0].num_children = 2; se[1].name = "a"; se[1].has_type = 1; se[1].type = CARQUET_PHYSICAL_INT32; se[1].has_repetition = 1; se[2].name = "b"; se[2].has_type = 1; se[2].type = CARQUET_PHYSICAL_BYTE_ARRAY; se[2].has_repetition = 1; se[2].repetition_type = CARQUET_REPETITION_OPTIONAL; se[2].has_logical_type = 1; se[2].logical_type.id = CARQUET_LOGICAL_STRING;
@@ -65,7 +76,7 @@ static void fam_thrift(int64_t iters) {
     carquet_buffer_t ph; carquet_buffer_init(&ph); { parquet_page_header_t h; memset(&h, 0, sizeof h); h.type = CARQUET_PAGE_DATA; h.uncompressed_page_size = 100; h.compressed_page_size = 90; h.has_crc = 1; h.crc = 12345; h.data_page_header.num_values = 10; h.data_page_header.has_statistics = 1; h.data_page_header.statistics.has_null_count = 1; (void)parquet_write_page_header(&h, &ph, NULL); }
     for (int64_t i = 0; i < iters; i++) { size_t n; uint8_t* in; int src = (int)(i % 3); int which = (int)vrng_below(&R, 2); CUR = which ? "parse_page_header" : "parse_file_metadata";
         if (src == 0) in = mutate(which ? ph.data : fm.data, which ? ph.size : fm.size, &n); else if (src == 1) in = random_bytes(&n);
-        else { /* grammar: deep nesting of unknown structs/lists, huge counts */ n = 8 + vrng_below(&R, 3000); if (i % 3000 == 2) { n = 200000 + vrng_below(&R, 3000000); v_count("deep_nesting_inputs"); } in = v_exact(n); int g = (int)vrng_below(&R, 5); for (size_t k = 0; k < n; k++) in[k] = g == 0 ? 0x1C : g == 1 ? 0x19 : g == 2 ? 0xF9 : g == 3 ? 0x2C : (uint8_t)(0x10 | (k & 0xF)); if (g == 2 && n > 6) { in[0] = 0x19; in[1] = 0xFC; in[2] = 0xFF; in[3] = 0xFF; in[4] = 0xFF; in[5] = 0x0F; } }
+        else { /* grammar: deep nesting of unknown structs/lists, huge counts */ n = 8 + vrng_below(&R, 3000); if (i % 3000 == 2) { n = 200000 + vrng_below(&R, 3000000); v_count("deep_nesting_inputs"); } in = v_exact(n); int g = (int)vrng_below(&R, 9); if (g >= 5) { gen_nest(in, n, g == 5 ? 8u : g == 6 ? 4u : g == 7 ? 10u : (unsigned)vrng_below(&R, 16)); v_count("mixed_container_nesting_inputs"); } else for (size_t k = 0; k < n; k++) in[k] = g == 0 ? 0x1C : g == 1 ? 0x19 : g == 2 ? 0xF9 : g == 3 ? 0x2C : (uint8_t)(0x10 | (k & 0xF)); if (g == 2 && n > 6) { in[0] = 0x19; in[1] = 0xFC; in[2] = 0xFF; in[3] = 0xFF; in[4] = 0xFF; in[5] = 0x0F; } }
         v_case(v_hash(in, n, (uint64_t)which));
         carquet_error_t err = CARQUET_ERROR_INIT;
         if (which) { parquet_page_header_t h; size_t used = 0; carquet_status_t st = parquet_parse_page_header(in, n, &h, &used, &err); if (st == CARQUET_OK && used > n) over("reported-size-exceeds-input", "bytes_read=%zu input=%zu", used, n); if (st == CARQUET_OK) v_count("ok_returns"); else v_count("error_returns"); }
